@@ -162,6 +162,111 @@ def _wrap(cls, name):
 
 _installed = []
 
+# ---------------------------------------------------------------------------------------------------------------------
+# search / replacement calls of the tests (inputs and answers as plain numbers; judged at relation level by
+# spec/RealFiles.tla through harness/recfind.py).  Nested searches (those made inside a replacement) are marked.
+calls = []
+FIND_LIMIT = 1500
+_fdepth = [0]
+
+
+def _plain(a, terms=False):
+    d = {"el": [str(e) for e in a.elements], "pos": [[float(x) for x in r] for r in np.asarray(a.positions, dtype=float).reshape(-1, 3)],
+         "cell": [[float(x) for x in r] for r in np.asarray(a.cell, dtype=float)] if a.cell is not None and np.size(a.cell) == 9 else [],
+         "q": [float(x) for x in np.asarray(a.charges, dtype=float)]}
+    if terms:
+        d["bonds"] = [[int(x) for x in r] for r in np.asarray(a.bonds).reshape(-1, 2)]
+    return d
+
+
+def _wrap_find(orig):
+    def w(structure, pattern, *a, **k):
+        try:
+            ok = len(structure) <= FIND_LIMIT and len(pattern) >= 1
+            names = ("axisp1_idx", "axisp2_idx", "opoint_idx", "return_positions_and_quats", "atol", "verbose")
+            kw = dict(zip(names, a))
+            kw.update(k)
+            rec = {"kind": "find", "nested": bool(_fdepth[0]), "test": _test[0], "S": _plain(structure), "P": _plain(pattern),
+                   "kw": {"atol": float(kw.get("atol", 5e-2)), "rpq": bool(kw.get("return_positions_and_quats", False)),
+                          "hints": [(-1 if kw.get(n) is None else int(kw.get(n))) for n in names[:3]]},
+                   "exc": "none", "idx": [], "rpos": [], "quat": []} if ok else None
+        except Exception:
+            rec = None
+        if rec is None:
+            return orig(structure, pattern, *a, **k)
+        try:
+            try:
+                res = orig(structure, pattern, *a, **k)
+            except Exception as e:
+                rec["exc"] = type(e).__name__
+                calls.append(rec)
+                raise
+            try:
+                if rec["kw"]["rpq"]:
+                    idx, pos, quats = res
+                    rec["rpos"] = [[[float(x) for x in r] for r in m] for m in pos]
+                    rec["quat"] = [[float(x) for x in q.as_quat()] for q in quats]
+                else:
+                    idx = res
+                rec["idx"] = [[int(i) for i in m] for m in idx]
+                calls.append(rec)
+            except Exception:
+                pass
+            return res
+        finally:
+            pass
+    w.__name__ = orig.__name__
+    w.__doc__ = orig.__doc__
+    return w
+
+
+def _wrap_replace(orig):
+    def w(structure, search_pattern, replace_pattern, *a, **k):
+        try:
+            ok = len(structure) <= FIND_LIMIT
+            names = ("replace_fraction", "atol", "axisp1_idx", "axisp2_idx", "opoint_idx", "return_num_matches", "replace_all",
+                     "verbose", "positions_check_max_delta", "ignore_atoms_should_not_be_deleted_twice")
+            kw = dict(zip(names, a))
+            kw.update(k)
+            rec = {"kind": "replace", "test": _test[0], "S": _plain(structure, True), "P": _plain(search_pattern, True),
+                   "RP": _plain(replace_pattern, True),
+                   "kw": {"atol": float(kw.get("atol", 5e-2)), "fraction": float(kw.get("replace_fraction", 1.0)),
+                          "replace_all": bool(kw.get("replace_all", False)), "ignore": bool(kw.get("ignore_atoms_should_not_be_deleted_twice", False)),
+                          "num": bool(kw.get("return_num_matches", False)),
+                          "hints": [(-1 if kw.get(n) is None else int(kw.get(n))) for n in names[2:5]]},
+                   "exc": "none", "R": {}, "n": -1, "inner": -1, "S_after": {}, "P_after": {}, "RP_after": {}} if ok else None
+        except Exception:
+            rec = None
+        if rec is None:
+            return orig(structure, search_pattern, replace_pattern, *a, **k)
+        _fdepth[0] += 1
+        n0 = len(calls)
+        try:
+            try:
+                res = orig(structure, search_pattern, replace_pattern, *a, **k)
+            except Exception as e:
+                rec["exc"] = type(e).__name__
+                rec["inner"] = n0 if len(calls) > n0 else -1
+                calls.append(rec)
+                raise
+            try:
+                r = res
+                if rec["kw"]["num"]:
+                    r, n = res
+                    rec["n"] = int(n)
+                rec["R"] = _plain(r, True)
+                rec["S_after"], rec["P_after"], rec["RP_after"] = _plain(structure, True), _plain(search_pattern, True), _plain(replace_pattern, True)
+                rec["inner"] = n0 if len(calls) > n0 else -1
+                calls.append(rec)
+            except Exception:
+                pass
+            return res
+        finally:
+            _fdepth[0] -= 1
+    w.__name__ = orig.__name__
+    w.__doc__ = orig.__doc__
+    return w
+
 
 def pytest_configure(config):
     from mofun import Atoms
@@ -169,6 +274,16 @@ def pytest_configure(config):
         orig, w = _wrap(Atoms, name)
         _installed.append((Atoms, name, orig))
         setattr(Atoms, name, w)
+    if os.environ.get("MOFUN_VERIF_RECORD_CALLS"):
+        import mofun
+        import mofun.mofun as mm
+        f0, r0 = mm.find_pattern_in_structure, mm.replace_pattern_in_structure
+        fw, rw = _wrap_find(f0), _wrap_replace(r0)
+        for mod in (mm, mofun):
+            _installed.append((mod, "find_pattern_in_structure", f0))
+            _installed.append((mod, "replace_pattern_in_structure", r0))
+            setattr(mod, "find_pattern_in_structure", fw)
+            setattr(mod, "replace_pattern_in_structure", rw)
 
 
 def pytest_runtest_logstart(nodeid, location):
@@ -182,3 +297,7 @@ def pytest_unconfigure(config):
     if path:
         with open(path, "w") as fh:
             json.dump({"events": events, "stats": stats}, fh)
+    path = os.environ.get("MOFUN_VERIF_RECORD_CALLS")
+    if path:
+        with open(path, "w") as fh:
+            json.dump({"calls": calls}, fh)
